@@ -4,7 +4,151 @@ The deductive cores this property rests on are proved elsewhere and re-run here 
 reported under this id as well: the boundary semantics of ``absolute_position`` / ``relative_position`` and the
 parent interval of a view (contracts/C01.py, jobs ``coords``).  Span arithmetic: C08; window SQL: C17.
 End-to-end: bounded run-time contracts (bounded/C04.py)."""
+import z3
+
 from contracts import C01
+from pyvc import extract
+from pyvc.dsl import And, Implies, Or, ite
+from pyvc.harness import cover_thunk, smt_thunk
+from pyvc.symex import Engine, Opaque, Rec, Unsupported
+from speclib import slices as S
+
+SEQ_TARGETS = {"core.sequence.Sequence": ("cogent3/core/sequence.py", "core.sequence.SeqView"),
+               "core.new_sequence.Sequence": ("cogent3/core/new_sequence.py", "core.new_sequence.SeqView")}
+
+
+class SeqHooks(C01.ViewHooks):
+    """two objects: the Sequence record (methods mangled as 'Sequence.<name>') and its view record (C01 hooks)"""
+
+    def call_method(self, eng, obj, meth, args, kw, env):
+        if isinstance(obj, Rec) and obj.cls == "Sequence":
+            if meth == "__len__":
+                return self.call_method(eng, obj.fields["_seq"], "__len__", [], {}, env)
+            name = "Sequence." + meth
+            if name in self.funcs:
+                return eng.call(name, eng.call_positional(name, args, kw, self_obj=obj))
+        if isinstance(obj, Opaque) and obj.tag == "annotation_db" and meth == "get_features_matching":
+            eng.state["query"] = dict(kw)
+            return []
+        return super().call_method(eng, obj, meth, args, kw, env)
+
+    def get_attr(self, eng, obj, attr):
+        if isinstance(obj, Rec) and obj.cls == "Sequence":
+            if attr in obj.fields:
+                return obj.fields[attr]
+            raise Unsupported(f"Sequence attribute {attr}")
+        return super().get_attr(eng, obj, attr)
+
+    def truth(self, eng, v):
+        if isinstance(v, Opaque) and v.tag == "annotation_db":
+            return True
+        return super().truth(eng, v)
+
+
+def job_window(chk, sname, dname, sn, en):
+    """Sequence.get_features: the absolute window handed to the annotation db covers exactly the parent positions
+    displayed by view[start:stop] (tight for |step| == 1), for every start/stop incl. None, negative and swapped"""
+    rel, vname = SEQ_TARGETS[sname]
+    funcs, props = C01.load(vname)
+    for m in ("get_features", "parent_coordinates"):
+        funcs["Sequence." + m] = extract.get(rel, "Sequence." + m)
+    hooks = SeqHooks(funcs, props, modular={"_is_int": C01.mod_is_int, "__len__": C01.mod_len,
+                                            "_input_vals_pos_step": C01.mod_input_vals(+1),
+                                            "_input_vals_neg_step": C01.mod_input_vals(-1)},
+                     globals_={"new_sequence": Opaque("module"), "numpy": Opaque("module")})
+    fn = f"{sname}.get_features[window]"
+    v, pre = C01.sym_view(vname)
+    pre = pre + C01.DIRECTIONS[dname](v)
+    a = None if sn else z3.Int("a")
+    b = None if en else z3.Int("b")
+    seq = Rec("Sequence", _seq=v, _annotation_db=Opaque("annotation_db"), annotation_db=Opaque("annotation_db"))
+    eng = Engine(funcs, hooks)
+    s0, e0, st0, off0, L0 = C01.view_tuple(v)
+    from pyvc.dsl import Defs
+    Defs.push()
+    n = S.view_len(s0, e0, st0)
+    defs, nz = Defs.pop()
+    # precondition: a window inside the view (python-style negative indices allowed), non-empty after ordering
+    pre2 = pre + list(defs)
+    if a is not None:
+        pre2.append(z3.And(-n <= a, a <= n))
+    if b is not None:
+        pre2.append(z3.And(-n <= b, b <= n))
+    try:
+        paths = eng.run(lambda e: e.call("Sequence.get_features", dict(self=seq, biotype=None, name=None, start=a, stop=b,
+                                                                       allow_partial=True)), pre2)
+    except Unsupported as u:
+        chk.undecided.append(f"{fn}/cfg=({dname},{sn},{en}): UNSUPPORTED {u}")
+        return
+    base = f"{fn}/cfg=({dname},start={'None' if sn else 'int'},stop={'None' if en else 'int'})"
+    chk.obligation(f"{base}/cover", "cover", cover_thunk(pre2), function=fn)
+    for k, p in enumerate(paths):
+        if p.outcome == "abort":
+            continue
+        q = p.state.get("query")
+        # the normalised view window [lo, hi)
+        A = 0 if a is None else ite(a == 0, 0, ite(a < 0, a + n, a))
+        B = n if b is None else ite(b == 0, n, ite(b < 0, b + n, b))
+        lo, hi = ite(A < B, A, B), ite(A < B, B, A)
+        nonempty = lo < hi
+        if p.outcome == "raise":
+            # IndexError is raised only when the window start is the end of the view (an empty window at the boundary)
+            goal = And(p.value == "IndexError", Or(z3.Not(nonempty), lo >= n))
+        elif q is None:
+            goal = z3.BoolVal(False)
+        else:
+            qs, qe = q.get("start"), q.get("stop")
+            first = S.first(s0, st0, L0)
+            p_lo = off0 + first + lo * st0          # plus-strand parent position of view element lo
+            p_hi = off0 + first + (hi - 1) * st0    # ... of view element hi-1
+            pmin, pmax = ite(st0 > 0, p_lo, p_hi), ite(st0 > 0, p_hi, p_lo)
+            goal = Implies(nonempty, And(qs <= pmin, pmax < qe, qs >= 0,
+                                         Implies(Or(st0 == 1, st0 == -1), And(qs == pmin, qe == pmax + 1))))
+        chk.obligation(f"{base}/post.window-covers-displayed-positions/path={k}", "post",
+                       smt_thunk(p.pc, goal if isinstance(goal, z3.ExprRef) else z3.BoolVal(bool(goal)), 60), function=fn,
+                       key=f"C04/{fn}/post.window", replayer=_replay_window(sname, sn, en))
+    C01._note_inline(chk, eng)
+
+
+def _replay_window(sname, sn, en):
+    def rep(model):
+        from cogent3 import make_seq
+        L, s, e, st, off = (model.get(k, d) for k, d in (("vL", 0), ("vstart", 0), ("vstop", 0), ("vstep", 1), ("voff", 0)))
+        if not S.inv(s, e, st, L) or off < 0 or L == 0:
+            return {"failed": False, "description": f"model outside inv: {model}"}
+        new = sname.startswith("core.new_sequence")
+        parent = "".join("ACGT"[i % 4] for i in range(L))
+        kw = {"annotation_offset": off} if off else {}
+        root = make_seq(parent, name="s1", moltype="dna", new_type=new, **kw)
+        for i in range(L):
+            root.annotation_db.add_feature(seqid="s1", biotype="base", name=f"p{i}", spans=[(i + off, i + off + 1)], strand="+")
+        # rebuild the view through public slicing: first = start (fwd) or L+start (rev)
+        view = root[s:e:st] if st > 0 else root[L + s: (L + e if L + e >= 0 else None): st]
+        if len(view) == 0:
+            return {"failed": False, "description": "empty view"}
+        a = None if sn else model.get("a", 0)
+        b = None if en else model.get("b", 0)
+        n = len(view)
+        A = 0 if not a else (a + n if a < 0 else a)
+        B = n if not b else (b + n if b < 0 else b)
+        lo, hi = min(A, B), max(A, B)
+        if lo >= hi:
+            return {"failed": False, "description": "empty window"}
+        idx = list(range(L))[s:e:st] if st > 0 else [L + i for i in range(s, e, st)]
+        want = sorted(f"p{i}" for i in idx[lo:hi])
+        try:
+            got = sorted(f.name for f in view.get_features(biotype="base", start=a, stop=b, allow_partial=True))
+        except Exception as ex:
+            return {"failed": True, "description": f"get_features(start={a}, stop={b}) on {sname}({parent!r})[{s}:{e}:{st}] raised {type(ex).__name__}: {ex}"}
+        missing = [w for w in want if w not in got]
+        return {"failed": bool(missing), "witness": {"view": [L, s, e, st, off], "start": a, "stop": b},
+                "description": f"{sname}({parent!r}) view ({s},{e},{st}) offset {off}: get_features(start={a}, stop={b}) returned {got}; "
+                               f"single-base features under the window are {want}"}
+    return rep
+
+
+def dispatch(chk, jobname, args):
+    globals()[jobname](chk, *args)
 
 
 def run(chk):
@@ -19,6 +163,11 @@ def run(chk):
                 jobs.append(("job_rel_spec", (tname, d, False)))
                 jobs.append(("job_rel_spec", (tname, d, True)))
         chk.parallel("contracts.C01", "dispatch", jobs)
+        wjobs = [("job_window", (sname, d, sn, en)) for sname in SEQ_TARGETS for d in ("fwd", "rev")
+                 for sn in (True, False) for en in (True, False)]
+        chk.parallel("contracts.C04", "dispatch", wjobs)
+        for sname, (rel, _) in SEQ_TARGETS.items():
+            chk.function(rel, "Sequence.get_features", "P")
         for t in C01.TARGETS.values():
             for m in ("parent_start", "parent_stop", "absolute_position", "relative_position"):
                 chk.function(t["base_file"], f"{t['base']}.{m}", "P")
